@@ -80,6 +80,103 @@ def genSteps (g : GenState) : List String → List Sexp
     | none => [impErrToSexp .noName]
     | some (n, g') => Sexp.str n :: genSteps g' bs
 
+/-! ### histories of statement-producing operations (stream `derived-statements`)
+
+`(imp-hist (S₀ S₁ …) op …)`: the streams are registers 0, 1, …; every operation but `query`
+appends the stream it produces as a new register.  The reply lists, per register, the stream and
+the read / written sets each of its statements reports — the sets of DERIVED statements (copies
+made by disambiguation, fusion, `map_expressions`, `copy`) — and, per operation, the returned
+substitution / id mapping.  The history stops at the first operation that raises. -/
+
+def pairsOf? : Sexp → Option (List (String × String))
+  | .list xs => xs.mapM fun
+      | .list [a, b] => do pure ((← a.text), (← b.text))
+      | _ => none
+  | _ => none
+
+/-- `stmt.copy(lhs=e)` / `copy(rhs=e)` / `copy(condition=e)` -/
+def kindSetField (k : Kind) (field : String) (e : Expr) : Kind :=
+  match k with
+  | .assign l r c =>
+    if field == "lhs" then .assign e r c
+    else if field == "rhs" then .assign l e c
+    else match c with
+      | some _ => .assign l r (some e)
+      | none => k
+  | .nop => .nop
+
+/-- `stmt.map_expressions(mapper, include_lhs=False)` -/
+def kindMapNoLhs (f : Expr → Expr) : Kind → Kind
+  | .nop => .nop
+  | .assign l r c => .assign l (f r) (c.map f)
+
+def modifyAt (ss : List Stmt) (j : Nat) (f : Stmt → Stmt) : List Stmt :=
+  match ss, j with
+  | [], _ => []
+  | s :: rest, 0 => f s :: rest
+  | s :: rest, j + 1 => s :: modifyAt rest j f
+
+def regToSexp (ss : List Stmt) : Sexp :=
+  .list [streamToSexp ss,
+         .list (ss.map fun s => .list [setResult s.kind.reads, setResult s.kind.written])]
+
+def regAt? (regs : List (List Stmt)) (i : Sexp) : Option (List Stmt) := do regs[(← i.nat?)]?
+
+/-- one operation: `none` = malformed request; otherwise the produced register (if any) with the
+operation's own reply, or the error it raises -/
+def histStep (regs : List (List Stmt)) : Sexp → Option (Except ImpErr (Option (List Stmt) × Sexp))
+  | .list [.atom "query", _] => some (.ok (none, .list []))
+  | .list [.atom "fuse", i, j] => do
+    let a ← regAt? regs i
+    let b ← regAt? regs j
+    pure ((fuse a b).map fun r => (some r.1, .list [pairsToSexp (sortedPairs r.2)]))
+  | .list [.atom "disamb", f, order, i, j] => do
+    let f ← filterOfSexp? f
+    let order ← strsOf? order
+    let a ← regAt? regs i
+    let b ← regAt? regs j
+    pure ((disambiguate f order a b).map fun r => (some r.1, .list [pairsToSexp r.2]))
+  | .list [.atom "disfuse", f, order, i, j] => do
+    let f ← filterOfSexp? f
+    let order ← strsOf? order
+    let a ← regAt? regs i
+    let b ← regAt? regs j
+    pure ((disambiguateAndFuseG pyGen f order a b).map fun r =>
+      (some r.1, .list [pairsToSexp r.2.1, pairsToSexp (sortedPairs r.2.2)]))
+  | .list [.atom "rename", m, .atom lhs, i] => do
+    let m ← pairsOf? m
+    let a ← regAt? regs i
+    let sub := substOfRenaming m
+    let f := fun e => (substM sub e).1
+    pure (.ok (some (a.map fun s =>
+      if lhs == "true" then s.mapExprs f else { s with kind := kindMapNoLhs f s.kind }), .list []))
+  | .list [.atom "copy", i, j, .atom field, e] => do
+    let a ← regAt? regs i
+    let j ← j.nat?
+    let e ← Expr.ofSexp? e
+    pure (.ok (some (modifyAt a j fun s => { s with kind := kindSetField s.kind field e }), .list []))
+  | _ => none
+
+def histSteps (regs : List (List Stmt)) (replies : List Sexp) : List Sexp → Option Sexp
+  | [] => some (.list [.list (regs.map regToSexp), .list replies.reverse])
+  | op :: rest =>
+    match histStep regs op with
+    | none => none
+    | some (.error e) =>
+      some (.list [.list (regs.map regToSexp), .list (impErrToSexp e :: replies).reverse])
+    | some (.ok (none, r)) => histSteps regs (r :: replies) rest
+    | some (.ok (some reg, r)) => histSteps (regs ++ [reg]) (r :: replies) rest
+
+def handleImpHist : Sexp → Option Sexp
+  | .list (.atom "imp-hist" :: .list streams :: ops) =>
+    match streams.mapM streamOfSexp? with
+    | some regs =>
+      match histSteps regs [] ops with
+      | some r => some r
+      | none => some (Sexp.mk "bad-op" [Sexp.str "imp-hist"])
+    | none => some (Sexp.mk "bad-op" [Sexp.str "imp-hist"])
+  | _ => none
+
 def handleImp : Sexp → Option Sexp
   | .list (.atom "imp-fuse" :: first :: rest) =>
     match streamOfSexp? first, rest.mapM streamOfSexp? with
@@ -132,6 +229,6 @@ def handleImp : Sexp → Option Sexp
     match strsOf? ex, strsOf? based with
     | some ex, some based => some (.list (genSteps (pyGen.init ex) based))
     | _, _ => some (Sexp.mk "bad-op" [Sexp.str "imp-gen"])
-  | _ => none
+  | s => handleImpHist s
 
 end PV.Driver
